@@ -53,7 +53,7 @@ func damageOnce(t *rapid.T, j *ref.Journal) string {
 	pos := func() int { return rapid.IntRange(0, len(ds)).Draw(t, "insertPos") }
 	acc := func() string { return rapid.SampledFrom(j.Accounts).Draw(t, "dAcc") }
 	com := func() string { return rapid.SampledFrom(j.Commodities).Draw(t, "dCom") }
-	kind := rapid.IntRange(0, 12).Draw(t, "damage")
+	kind := rapid.IntRange(0, 13).Draw(t, "damage")
 	switch kind {
 	case 0: // drop an open
 		if idx := indices(ds, ref.KOpen); len(idx) > 0 {
@@ -190,6 +190,51 @@ func damageOnce(t *rapid.T, j *ref.Journal) string {
 			j.Directives = insertAt(ds, pos(), ref.Directive{Kind: ref.KTrx, Date: best, Desc: "booked on the day of the clean-up",
 				Bookings: []ref.Booking{{Credit: b, Debit: a, Qty: DrawQty(t, 2, false), Com: com()}}})
 			return "booking-on-mass-close-day"
+		}
+	case 13: // the last account touched before its close is used again right after it (a card paid off, closed - and charged once more)
+		var closes []int
+		for i, d := range ds {
+			if d.Kind == ref.KClose && d.Date >= hi-3 {
+				closes = append(closes, i)
+			}
+		}
+		if len(closes) == 0 {
+			closes = indices(ds, ref.KClose)
+		}
+		// a counter-account that is opened before and never closed
+		closed := map[string]bool{}
+		opened := map[string]ref.Day{}
+		for _, d := range ds {
+			switch d.Kind {
+			case ref.KClose:
+				closed[d.Account] = true
+			case ref.KOpen:
+				if o, ok := opened[d.Account]; !ok || d.Date < o {
+					opened[d.Account] = d.Date
+				}
+			}
+		}
+		if len(closes) > 0 {
+			cl := ds[closes[rapid.IntRange(0, len(closes)-1).Draw(t, "whichClose")]]
+			var others []string
+			for _, a := range j.Accounts {
+				if o, ok := opened[a]; ok && !closed[a] && o <= cl.Date && a != cl.Account {
+					others = append(others, a)
+				}
+			}
+			if len(others) > 0 {
+				other := others[rapid.IntRange(0, len(others)-1).Draw(t, "counter")]
+				c := com()
+				// a zero booking on the day of the close keeps the position at zero and makes the account the last one looked at
+				before := ref.Directive{Kind: ref.KTrx, Date: cl.Date, Desc: "zzz last entry before the close", Bookings: []ref.Booking{{Credit: other, Debit: cl.Account, Qty: "0", Com: c}}}
+				after := ref.Directive{Kind: ref.KTrx, Date: cl.Date + ref.Day(rapid.IntRange(1, 2).Draw(t, "afterClose")), Desc: "charged once more",
+					Bookings: []ref.Booking{{Credit: cl.Account, Debit: other, Qty: DrawQty(t, 2, false), Com: c}}}
+				if rapid.Bool().Draw(t, "afterDebitSide") {
+					after.Bookings[0].Credit, after.Bookings[0].Debit = other, cl.Account
+				}
+				j.Directives = append(j.Directives, before, after)
+				return "use-after-close"
+			}
 		}
 	case 9: // extra open at an arbitrary date
 		j.Directives = insertAt(ds, pos(), ref.Directive{Kind: ref.KOpen, Date: anyDate(), Account: acc()})
